@@ -41,13 +41,21 @@ fi
 gen_plain_overlay
 OVERLAY="$BUILD/overlay-plain-$id.json"
 BIN="$BUILD/$id"
-if [ -f "$HERE/mc/cmd/$id/SCHED" ]; then
+RACEFLAG=""
+if [ -n "${VERIF_RACE:-}" ]; then
+  # auxiliary free-running race pass (DESIGN.md 3.5 / 9.6): plain build (real sync, real
+  # goroutines) with the race detector; the harness runs its free-running driver only
+  RACEFLAG="-race"; BIN="$BUILD/$id-race"
+  rm -rf "$BUILD/race-$id"; mkdir -p "$BUILD/race-$id"
+  export VERIF_RACE_PASS=1 GORACE="log_path=$BUILD/race-$id/r halt_on_error=0 history_size=4"
+fi
+if [ -z "$RACEFLAG" ] && [ -f "$HERE/mc/cmd/$id/SCHED" ]; then
   # scheduler build: instrumented copies of the concurrency-relevant packages
   (go build $MODFLAG -o "$BUILD/instr-$id" ./cmd/instr) || { echo "BUILD-ERROR instr"; exit 2; }
   "$BUILD/instr-$id" -repo "$REPO" -out "$BUILD/sched-src-$id" -overlay "$BUILD/overlay-sched-$id.json" -plain "$BUILD/overlay-plain-$id.json" || { echo "BUILD-ERROR instr run"; exit 2; }
   OVERLAY="$BUILD/overlay-sched-$id.json"
 fi
-if ! go build $MODFLAG -overlay "$OVERLAY" -o "$BIN" "./cmd/$id" 2> "$BUILD/$id.build.log"; then
+if ! go build $RACEFLAG $MODFLAG -overlay "$OVERLAY" -o "$BIN" "./cmd/$id" 2> "$BUILD/$id.build.log"; then
   cat "$BUILD/$id.build.log" >&2
   echo "BUILD-ERROR: harness for $ID does not build against the current tree (exit 2, no verdict)"
   exit 2
